@@ -35,4 +35,4 @@ Deliverables, all written into the directory {out} (create it):
 1. patch.diff  - output of `git -C {wt} diff` for your change (apply-able with `git apply` at the library root).
 2. demo.py     - a small stand-alone script that exits 0 (prints PASS) on the ORIGINAL code and exits 1 (prints FAIL and why) with your change applied. It must only use the library's public API. It is run as: cd <lib root> && PYTHONPATH=<lib root> /venv/bin/python demo.py
 3. meta.json   - {{"property": "{p['id']}", "summary": "...what was changed...", "needs": "...what specific input/sequence is needed to manifest...", "why_tests_pass": "..."}}
-{AVOID}Before finishing, verify yourself: (a) with the change, the 144 tests pass and demo.py exits 1; (b) after `git -C {wt} stash` (original code), demo.py exits 0; then `git -C {wt} stash pop` to leave the change applied. Report briefly what you did.""")
+{AVOID}Before finishing, verify yourself: (a) with the change, the 144 tests pass and demo.py exits 1; (b) on the original code (`git -C {wt} diff > {out}/patch.diff; git -C {wt} apply -R {out}/patch.diff`), demo.py exits 0; then `git -C {wt} apply {out}/patch.diff` to leave the change applied. Do NOT use `git stash` (the stash is shared between worktrees and other agents are working in parallel). Report briefly what you did.""")
